@@ -225,6 +225,11 @@ func cmdRule(args []string) {
 		out = append(out, runRule(c, id))
 	}
 	if asJSON {
+		for _, r := range out {
+			for i := range r.Findings {
+				r.Findings[i].Property = strings.Join(engine.PropsOf(r.Findings[i]), ",")
+			}
+		}
 		b, _ := json.MarshalIndent(out, "", " ")
 		fmt.Println(string(b))
 		return
